@@ -111,6 +111,10 @@ impl SeekTy {
 
 pub trait DynCipher {
     fn try_apply(&mut self, data: &mut [u8]) -> Result<(), ()>;
+    /// the provided (panicking) trait methods: only to be called where the model says they succeed
+    fn apply_infallible(&mut self, data: &mut [u8]);
+    fn seek_infallible_u64(&mut self, v: u64);
+    fn pos_infallible_u128(&self) -> u128;
     /// `neg`: for i32 only, seek to -(v) instead of v.
     fn try_seek(&mut self, ty: SeekTy, v: u128, neg: bool) -> Result<(), ()>;
     fn try_pos(&self, ty: SeekTy) -> Result<i128, ()>;
@@ -121,6 +125,15 @@ macro_rules! impl_dyn_cipher {
         impl DynCipher for $t {
             fn try_apply(&mut self, data: &mut [u8]) -> Result<(), ()> {
                 StreamCipher::try_apply_keystream(self, data).map_err(|_| ())
+            }
+            fn apply_infallible(&mut self, data: &mut [u8]) {
+                StreamCipher::apply_keystream(self, data)
+            }
+            fn seek_infallible_u64(&mut self, v: u64) {
+                StreamCipherSeek::seek(self, v)
+            }
+            fn pos_infallible_u128(&self) -> u128 {
+                StreamCipherSeek::current_pos::<u128>(self)
             }
             fn try_seek(&mut self, ty: SeekTy, v: u128, neg: bool) -> Result<(), ()> {
                 match ty {
@@ -159,6 +172,24 @@ impl_dyn_cipher!(c2_chacha::XChaCha20);
 
 pub fn new_cipher(name: &str, key: &[u8; 32], nonce: &[u8]) -> Box<dyn DynCipher> {
     use cipher::generic_array::GenericArray as GA;
+    // half of the instances (chosen by the key material) are built through new_from_slices
+    if key[0] & 1 == 1 {
+        macro_rules! nfs {
+            ($t:ty) => {
+                Box::new(<$t as NewCipher>::new_from_slices(&key[..], nonce).expect("new_from_slices with correct lengths")) as Box<dyn DynCipher>
+            };
+        }
+        return match name {
+            "ChaCha8" => nfs!(c2_chacha::ChaCha8),
+            "ChaCha12" => nfs!(c2_chacha::ChaCha12),
+            "ChaCha20" => nfs!(c2_chacha::ChaCha20),
+            "Ietf" => nfs!(c2_chacha::Ietf),
+            "XChaCha8" => nfs!(c2_chacha::XChaCha8),
+            "XChaCha12" => nfs!(c2_chacha::XChaCha12),
+            "XChaCha20" => nfs!(c2_chacha::XChaCha20),
+            _ => panic!("unknown cipher {}", name),
+        };
+    }
     let k = GA::from_slice(key);
     match name {
         "ChaCha8" => Box::new(c2_chacha::ChaCha8::new(k, GA::from_slice(nonce))),
@@ -176,6 +207,12 @@ pub fn new_cipher(name: &str, key: &[u8; 32], nonce: &[u8]) -> Box<dyn DynCipher
 
 pub trait DynHash {
     fn update(&mut self, data: &[u8]);
+    /// `Update::chain` (by-value update)
+    fn chain_box(self: Box<Self>, data: &[u8]) -> Box<dyn DynHash>;
+    /// `DynDigest::finalize_reset` (in-place finalize + reset through the object-safe trait)
+    fn dyn_finalize_reset(&mut self) -> Vec<u8>;
+    /// `Digest::finalize_reset` (finalizes a clone, resets the original)
+    fn digest_finalize_reset(&mut self) -> Vec<u8>;
     fn finalize_reset(&mut self) -> Vec<u8>;
     fn finalize_box(self: Box<Self>) -> Vec<u8>;
     /// `FixedOutput::finalize_into_reset` writing the digest into caller-provided memory
@@ -192,6 +229,15 @@ macro_rules! impl_dyn_hash {
         impl DynHash for $t {
             fn update(&mut self, data: &[u8]) {
                 Update::update(self, data)
+            }
+            fn chain_box(self: Box<Self>, data: &[u8]) -> Box<dyn DynHash> {
+                Box::new(Update::chain(*self, data))
+            }
+            fn dyn_finalize_reset(&mut self) -> Vec<u8> {
+                digest::DynDigest::finalize_reset(self).to_vec()
+            }
+            fn digest_finalize_reset(&mut self) -> Vec<u8> {
+                Digest::finalize_reset(self).to_vec()
             }
             fn finalize_reset(&mut self) -> Vec<u8> {
                 FixedOutput::finalize_fixed_reset(self).to_vec()
